@@ -7,6 +7,7 @@ from typing import Any, Callable, Dict, List, Optional, Tuple, Union, Type
 import regex
 
 from calendar import monthrange
+from copy import copy
 
 from .types import Artifact, Interval, RegexMatch, Time, pod_hours
 
@@ -131,6 +132,11 @@ def rule(*patterns: Union[str, Predicate]) -> Callable[[Any], ProductionRule]:
                 # the production matched but what it built does not exist
                 return None
             if res is not None:
+                if any(res is a for a in args):
+                    # the production handed back one of its arguments (absorbing
+                    # "at"/"from", duration/interval consistency): widen a copy,
+                    # the argument itself is shared with other partial parses
+                    res = copy(res)
                 # upon a successful production, update the span
                 # information by expanding it to that of all args
                 res.update_span(*args)
